@@ -108,6 +108,12 @@ def build_and_run(job):
     zz = z if o["z"] == "given" else None
     Gm = gmatrix(o["G"], Gd)
     Aop = linop.MatMul([2, 1], A)
+    if job.get("aop"):
+        # forward operators whose normal operator is the Identity linop (which returns its input array): orthonormal FFT,
+        # Identity, Circshift - any aliasing / in-place slip in a solver branch shows up only with such operators
+        Aop = {"fft": lambda: linop.FFT([2, 1], axes=(0,)), "identity": lambda: linop.Identity([2, 1]), "circshift": lambda: linop.Circshift([2, 1], [1], axes=[0])}[job["aop"]]()
+        A = np.stack([np.asarray(Aop(e_.reshape(2, 1).astype(np.complex128 if cplx else np.float64))).ravel() for e_ in np.eye(2)], axis=1)
+        y = y[:2].astype(np.complex128 if (cplx or job["aop"] == "fft") else np.float64)
     G = None
     gshape = [2, 1]
     if o["G"] == "dense":
@@ -162,22 +168,25 @@ def build_and_run(job):
         # warm start whose dtype differs from the data's (float32 / complex64): the solution must still be written into it
         kw.update(x=(np.array([[0.3], [-0.7]]) + (0.1j if cplx else 0)).astype(np.complex64 if cplx else np.float32))
     np.random.seed(seed)
+    y_before = y.copy()
     res = {"opt": o, "variant": variant, "cplx": cplx, "eff": eff}
     with warnings.catch_warnings():
         warnings.simplefilter("ignore")
         try:
-            ap = app.LinearLeastSquares(Aop, y, proxg=pg, lamda=lam, G=G, z=zz, solver=solver, **kw)
             if job.get("pbar"):
                 import contextlib
                 import os
 
-                with open(os.devnull, "w") as dn, contextlib.redirect_stderr(dn):   # the bar itself is of no interest
+                with open(os.devnull, "w") as dn, contextlib.redirect_stderr(dn):   # the bars themselves are of no interest
+                    ap = app.LinearLeastSquares(Aop, y, proxg=pg, lamda=lam, G=G, z=zz, solver=solver, **kw)
                     x = ap.run()
             else:
+                ap = app.LinearLeastSquares(Aop, y, proxg=pg, lamda=lam, G=G, z=zz, solver=solver, **kw)
                 x = ap.run()
         except Exception as e:
             res["raised"] = "%s: %s" % (type(e).__name__, str(e)[:200])
             return res
+    res["y_unchanged"] = bool(np.array_equal(y, y_before))
     res["x"] = [complex(v) for v in np.asarray(x).ravel()]
     res["f"] = objective(A, y, zz, lam, o["proxg"], Gm, np.asarray(x))
     res["returned_is_app_x"] = bool(x is ap.x)
@@ -233,12 +242,14 @@ def run(ctx):
         if st["phase"] == "ready":
             jobs.append({"opt": o, "variant": 0, "cplx": o["proxg"] in ("None", "l2") and (len(jobs) % 2 == 0), "seed": ctx.seed, "phase": st["phase"], "x32": True})
             jobs.append({"opt": o, "variant": 1, "cplx": False, "seed": ctx.seed + 1, "phase": st["phase"], "pbar": True})
+            cx = o["proxg"] in ("None", "l2")
+            jobs.append({"opt": o, "variant": len(jobs) % 2, "cplx": cx, "seed": ctx.seed + 2, "phase": st["phase"], "aop": "fft" if cx else ["identity", "circshift"][len(jobs) % 2]})
     with mp.get_context("fork").Pool(16) as pool:
         results = pool.map(build_and_run, jobs, chunksize=4)
     by_problem = {}
     for job, res in zip(jobs, results):
         o = job["opt"]
-        key = {"solver": o["solver"], "lamda": o["lamda"], "z": o["z"], "proxg": o["proxg"], "G": o["G"], "variant": job["variant"], "complex": job["cplx"], "x32": bool(job.get("x32")), "pbar": bool(job.get("pbar"))}
+        key = {"solver": o["solver"], "lamda": o["lamda"], "z": o["z"], "proxg": o["proxg"], "G": o["G"], "variant": job["variant"], "complex": job["cplx"], "x32": bool(job.get("x32")), "pbar": bool(job.get("pbar")), "aop": job.get("aop", "matmul")}
         r.traces += 1
         r.evaluations += 1
         r.nontrivial += 1
@@ -260,6 +271,8 @@ def run(ctx):
             if ro is None or abs(ro - res["f"]) > 1e-9 * max(1.0, abs(res["f"])) or res.get("recorded_count") != res.get("updates", 0) + 1:
                 r.violations.append(core.Violation(["C14"], "lls", dict(key, kind="recorded_objective"),
                                                    "objective_values[-1] = %s after %s updates (%s values recorded), documented objective at the returned x = %.12g" % (ro, res.get("updates"), res.get("recorded_count"), res["f"]), {"result": res}))
+        if res.get("y_unchanged") is False:
+            r.violations.append(core.Violation(["C14"], "lls", dict(key, kind="data_overwritten"), "LinearLeastSquares overwrote the caller's data array y (the documented objective is stated for the y that was passed)", {"result": res}))
         if not res.get("returned_equals_alg_x", True):
             r.violations.append(core.Violation(["C15", "C14"], "lls", dict(key, kind="returns_other_than_alg_holds"), "App.run() returned an array that differs from the solution the algorithm holds (alg.x)", {"result": res}))
         if not res.get("returned_is_app_x", True) or res.get("x_is_callers") is False:
